@@ -551,6 +551,9 @@ func tagParsable(fd *FileDef) {
 				if cl.Kind == "bool" {
 					add("parsable_bool_trait")
 				}
+				if cl.Ty == "time.Duration" {
+					add("parsable_duration_trait")
+				}
 				key := cl.Ty + "|" + cl.Kind + "|" + cl.Str + "|" + cl.Int + "|" + strconv.FormatBool(cl.Bool)
 				if seen[key] {
 					add("parsable_traits_equal_cells")
